@@ -20,13 +20,16 @@ TIERS = {"quick": {"shards": 8, "cases": 90}, "thorough": {"shards": 16, "cases"
 FLOOR_BASE = {"quick": 60, "thorough": 1500}    # case counts the floors below were calibrated for; the launcher scales them
 FORMS = ["self", "pubo", "puso", "qubo", "quso"]
 LABEL_FLAG = {"last": False}
+HEAVY = {"last": False}
+SHAPED = {"n": 0}
 
 
 def FLOORS(tier):
     q = tier == "quick"
     f = {"argmin-rows-decoded": 1500 if q else 60000, ">=2-constraints-and-reduction-ancilla": 50 if q else 1500,
          "solve_bruteforce-calls": 150 if q else 5000, "readme-family": 15 if q else 400, "class:PCBO": 100, "class:PCSO": 100,
-         "logical-constraint": 40, "remove_ancilla-checks": 1500, "label-containing-__a-inside": 40}
+         "logical-constraint": 40, "remove_ancilla-checks": 1500, "label-containing-__a-inside": 40,
+         "objective-with-shared-pair-high-degree-terms": 40, "constraints-from-branch-shapes": 60, "sibling-with-foreign-constraint": 60}
     for fo in FORMS:
         f["form:" + fo] = 100 if q else 4000
     return f
@@ -49,6 +52,27 @@ def build(rng):
     else:
         LABEL_FLAG["last"] = False
     fterms = gen.rand_terms(rng, labs, min(3, n), coefs=[-3, -2, -1, 1, 2, 3, 0.5, -1.5], lo=1, hi=5)
+    HEAVY["last"] = False
+    if rng.random() < 0.3 and not LABEL_FLAG["last"]:
+        # several terms above degree 2 that share variable pairs (ancillas of the quadratisation get re-used, a later term may
+        # contain two earlier pairs), over 5-6 variables some of which were registered first by low-order terms
+        n = rng.randint(5, 6)
+        labs = (gen.labels(rng, 6) + ["w6"])[:n]
+        fterms = {}
+        p1, p2 = tuple(rng.sample(labs, 2)), tuple(rng.sample(labs, 2))
+        for x in (list(p2) if rng.random() < 0.6 else rng.sample(labs, rng.randint(0, 3))):
+            fterms[(x,)] = rng.choice([1, -1, 2])
+        rest = [x for x in labs]
+        for pr in (p1, p2):
+            k = tuple(dict.fromkeys(pr + (rng.choice(rest),)))
+            fterms[k] = fterms.get(k, 0) + rng.choice([-3, -2, 2, 3, 1])
+        k = tuple(dict.fromkeys(p1 + p2 + ((rng.choice(rest),) if rng.random() < 0.5 else ())))
+        fterms[k] = fterms.get(k, 0) + rng.choice([-3, -2, 2, 3])
+        for _ in range(rng.randint(0, 2)):
+            k = tuple(rng.sample(labs, rng.randint(3, 4)))
+            fterms[k] = fterms.get(k, 0) + rng.choice([-2, -1, 1, 2])
+        fterms = {k: v for k, v in fterms.items() if v}
+        HEAVY["last"] = True
     f = ref.from_raw(kind, fterms)
     order = list(labs)
     ftab = ref.table(f, order)
@@ -91,9 +115,20 @@ def build(rng):
             feasible &= sat
             continue
         P = {}
-        for _ in range(rng.randint(1, 3)):
-            k = tuple(rng.sample(labs, rng.randint(0, min(2, n))))
-            P[k] = P.get(k, 0) + rng.randint(-2, 2)
+        if rng.random() < 0.4 and n >= 3:
+            # the branch shapes of the comparison methods (special forms included), as in C02 / C03
+            from . import _constraints as C_
+            shape_, Pb_ = C_.shape_poly(rng, labs)
+            if kind == "spin" and rng.random() < 0.5:
+                ps_ = ref.from_raw("bool", Pb_).to_spin()
+                P = {tuple(sorted(k, key=repr)): (float(v) if v.denominator != 1 else int(v)) for k, v in ps_.d.items()}
+            else:
+                P = dict(Pb_)
+            SHAPED["n"] += 1
+        else:
+            for _ in range(rng.randint(1, 3)):
+                k = tuple(rng.sample(labs, rng.randint(0, min(2, n))))
+                P[k] = P.get(k, 0) + rng.randint(-2, 2)
         P = {k: v for k, v in P.items() if v}
         if not any(k for k in P):
             continue
@@ -147,6 +182,11 @@ def case(ctx, rng, idx):
         ctx.cat("label-containing-__a-inside")
     if desc[0][0] == "readme":
         ctx.cat("readme-family")
+    elif HEAVY["last"]:
+        ctx.cat("objective-with-shared-pair-high-degree-terms")
+    if SHAPED["n"]:
+        ctx.count("constraints-from-branch-shapes", SHAPED["n"])
+        SHAPED["n"] = 0
     if any(d[0].startswith("add_constraint_") and not d[0].endswith("_zero") for d in desc):
         ctx.cat("logical-constraint")
     spin = kind == "spin"
@@ -201,6 +241,26 @@ def case(ctx, rng, idx):
             ctx.violation(where + ":is_solution_valid-rejects-optimum", "is_solution_valid(%r) is False" % (sol,), w)
             return False
         return True
+    # (0) a sibling: a copy (or an arithmetic result) of H gets one more constraint that excludes H's optimum; H itself must
+    #     not notice
+    if rng.random() < 0.25 and not absent:
+        xs = ref.assignment(min(feas_rows, key=lambda i: ftab[i]), order, spin)
+        l0 = rng.choice(order)
+        how = rng.choice(["copy", "copy-constructor", "times-one", "plus-zero"])
+        with warnings.catch_warnings():
+            warnings.simplefilter("ignore")
+            try:
+                G = {"copy": lambda: H.copy(), "copy-constructor": lambda: T(H), "times-one": lambda: H * 1, "plus-zero": lambda: H + 0}[how]()
+                # forces l0 to the opposite of its optimal value: l0 - (opposite) == 0
+                opp = (1 - xs[l0]) if not spin else -xs[l0]
+                R0 = rng.choice(["eq", "le", "ge"])
+                G.add_constraint_eq_zero({(l0,): 1, (): -opp}, lam=1) if R0 == "eq" else (
+                    G.add_constraint_le_zero({(l0,): 1, (): -opp}, lam=1) if R0 == "le" else G.add_constraint_ge_zero({(l0,): 1, (): -opp}, lam=1))
+                desc.append(["sibling", how, "add_constraint_%s_zero on the sibling" % R0, {str((l0,)): 1, "()": -opp}])
+                ctx.cat("sibling-with-foreign-constraint")
+            except Exception as e:   # noqa
+                ctx.violation("sibling:%s:raises-%s" % (how, type(e).__name__), "%r" % (e,), w)
+                return
     # (1) solve_bruteforce --------------------------------------------------------------------------
     hv = sorted(oracles.true_vars(H), key=repr)
     if len(hv) <= 16:
